@@ -88,7 +88,13 @@ def write_replay(prop, v):
 
 
 def write_evidence(prop, tier, seed, level, coverage, assumptions, wall, nviol, extra=None):
-    d = os.path.join(VERIF_DIR, "evidence")
+    # /verif/evidence describes runs on /repo's working tree only: a run pointed at another tree (VERIF_REPO, as
+    # the seeded-change regression does) leaves its evidence next to the replays instead
+    d = os.environ.get("VERIF_EVIDENCE_DIR") or (
+        os.path.join(VERIF_DIR, "evidence")
+        if os.path.realpath(runner.repo_root()) == "/repo"
+        else os.path.join(VERIF_DIR, "replays", "evidence-other-tree")
+    )
     os.makedirs(d, exist_ok=True)
     ev = {
         "property_id": prop,
